@@ -63,7 +63,7 @@ What is compared on every run (both views, stoichiometry on/off, node keys kind 
 
 A network in which a species label equals a reaction id is classified `species_label_is_edge_id`
 (finding F19: the un-prefixed string ids of the bipartite view collide; not with integer ids, where every gate applies).
-Not generated: the network without species under an EMPTY node key list (`out_of_scope`; `_search` raises StopIteration there).
+The network without species under an EMPTY node key list (F39: `_search` raised StopIteration, repaired in /repo 69924ec) is gated like any other.
 """
 import itertools
 import json
@@ -105,6 +105,7 @@ THEOREMS = [
     "SynKit.CrnCanon.crn_ir_orbits_anyOrder",
     "SynKit.CrnCanon.crn_ir_orbits",
     "SynKit.CrnCanon.C18.ir_full",
+    "SynKit.CrnCanon.crn_ir_empty_no_keys",
 ]
 
 F19 = "species_label_is_edge_id"
@@ -769,12 +770,11 @@ def sel(cfg):
 
 
 def out_of_scope(ctx, net, cn):
-    """(network, configuration) pairs the generators do not produce gates for.  One entry: the network without any species
-    under an EMPTY node key list — `CRNCanonicalizer._init_part` then returns one empty cell and `_search` raises StopIteration
-    (reported as a finding; with the default keys the empty network is analysed and gated like any other)."""
+    """(network, configuration) pairs the generators do not produce gates for.  None any more: the network without any
+    species under an EMPTY node key list used to raise StopIteration in `CRNCanonicalizer._search` (F39, repaired in /repo
+    69924ec) and is now gated like any other; the pair is only counted."""
     if not CFG[cn]["nk"] and not net["rxns"] and not net.get("isolated") and not net.get("history"):
-        ctx.count("out_of_scope:empty-network-with-empty-node-key-list")
-        return True
+        ctx.count("empty-network-with-empty-node-key-list")
     return False
 
 
@@ -1918,7 +1918,6 @@ def run(ctx):
         "(max_depth >= number of nodes, max_count > automorphism count, a time limit of 1e6 s, or a default time limit >= 5 s on a call that returned within 2 s) is not reached; "
         "under tight limits a RuntimeError ('canonical form not found') or a reported early stop is accepted and nothing else is demanded",
         "detect_automorphisms has no edge_attr_keys parameter (arcs matched on role + stoich): gated only under configurations whose arc keys are these two",
-        "the network without species analysed with an empty node key list is not generated (CRNCanonicalizer raises StopIteration there: reported as a finding, not part of the gates)",
         "in-place edits of the history stream go through add_rxn / remove_rxn / remove_species, or change a coefficient (>= 1) of a species already on a side / the rule field of a stored "
         "reaction (the store stays consistent); a helper object keeps the view it built on first use (documented as cached), so a helper created before an edit may describe the network "
         "as it was then or as it is now, nothing else; new helper objects must describe the current content",
